@@ -973,17 +973,6 @@ func (this *encodingTask) encode(res *encodingTaskResult) {
 		evt := kanzi.NewEvent(kanzi.EVT_AFTER_ENTROPY, int(this.currentBlockID),
 			int64((written+7)>>3), checksum, hashType, time.Now())
 		notifyListeners(this.listeners, evt)
-
-		if v, hasKey := this.ctx["verbosity"]; hasKey {
-			blockOffset := this.obs.Written()
-
-			if v.(uint) > 4 {
-				msg := fmt.Sprintf("{ \"type\":\"%s\", \"id\":%d, \"offset\":%d, \"skipFlags\":%.8b }",
-					"BLOCK_INFO", int(this.currentBlockID), blockOffset, skipFlags)
-				evt1 := kanzi.NewEventFromString(kanzi.EVT_BLOCK_INFO, int(this.currentBlockID), msg, time.Now())
-				notifyListeners(this.listeners, evt1)
-			}
-		}
 	}
 
 	verifPoint(0, 1, this.processedBlockID, this.currentBlockID, 0)
@@ -1010,6 +999,20 @@ func (this *encodingTask) encode(res *encodingTaskResult) {
 
 	verifPoint(0, 3, this.processedBlockID, this.currentBlockID, 0)
 	verifPoint(0, 5, this.processedBlockID, this.currentBlockID, 0)
+
+	if len(this.listeners) > 0 {
+		// The shared bitstream may only be queried by the task that owns it
+		if v, hasKey := this.ctx["verbosity"]; hasKey {
+			blockOffset := this.obs.Written()
+
+			if v.(uint) > 4 {
+				msg := fmt.Sprintf("{ \"type\":\"%s\", \"id\":%d, \"offset\":%d, \"skipFlags\":%.8b }",
+					"BLOCK_INFO", int(this.currentBlockID), blockOffset, skipFlags)
+				evt1 := kanzi.NewEventFromString(kanzi.EVT_BLOCK_INFO, int(this.currentBlockID), msg, time.Now())
+				notifyListeners(this.listeners, evt1)
+			}
+		}
+	}
 
 	// Emit block size in bits (max size pre-entropy is 1 GB = 1 << 30 bytes)
 	lw := uint(3)
